@@ -946,6 +946,200 @@ func vC15ConcreteCase(tr *vC15Trace, r *rand.Rand) {
 	tr.emit(line)
 }
 
+
+// ---------------------------------------------------------------- corpus
+
+// A corpus entry is a declarative message plus the pool history to establish before it
+// is packed; the minimal failing inputs of the finding and of every seeded change live in
+// corpus/C15/*.json and are replayed first on every run.
+type vC15CorpusRec struct {
+	T      string `json:"t"`      // A AAAA NS CNAME MX TXT NULL OPT
+	Name   string `json:"name"`   // owner
+	TTL    uint32 `json:"ttl"`
+	IP     string `json:"ip"`     // hex octets (A / AAAA)
+	Target string `json:"target"` // NS CNAME MX
+	Len    int    `json:"len"`    // NULL: payload length; TXT: string length
+	ID     string `json:"id"`     // same id = same object (aliasing)
+	Rrtype *int   `json:"rrtype"` // header type override
+	Class  *int   `json:"class"`
+}
+type vC15CorpusEntry struct {
+	ID      string `json:"id"`
+	Why     string `json:"why"`
+	History []string `json:"history"` // junk | bytes | junk+small | declined-junk
+	Via     string `json:"via"`       // "" (TryPack + PackClone)
+	Msg     struct {
+		ID       int  `json:"id"`
+		Response bool `json:"response"`
+		Opcode   int  `json:"opcode"`
+		Rcode    int  `json:"rcode"`
+		Compress bool `json:"compress"`
+		Question []struct {
+			Name string `json:"name"`
+			Type int    `json:"type"`
+		} `json:"question"`
+		Answer []vC15CorpusRec `json:"answer"`
+		Ns     []vC15CorpusRec `json:"ns"`
+		Extra  []vC15CorpusRec `json:"extra"`
+	} `json:"msg"`
+}
+
+func vC15HexIP(h string) net.IP {
+	var out []byte
+	for i := 0; i+1 < len(h); i += 2 {
+		var b byte
+		fmt.Sscanf(h[i:i+2], "%02x", &b)
+		out = append(out, b)
+	}
+	return net.IP(out)
+}
+
+func vC15CorpusMsg(e *vC15CorpusEntry) *vc15gen.VC15Case {
+	m := new(dns.Msg)
+	m.Id, m.Response, m.Opcode, m.Rcode, m.Compress = uint16(e.Msg.ID), e.Msg.Response, e.Msg.Opcode, e.Msg.Rcode, e.Msg.Compress
+	for _, q := range e.Msg.Question {
+		m.Question = append(m.Question, dns.Question{Name: q.Name, Qtype: uint16(q.Type), Qclass: dns.ClassINET})
+	}
+	objs := map[string]dns.RR{}
+	build := func(recs []vC15CorpusRec) []dns.RR {
+		var out []dns.RR
+		for _, c := range recs {
+			if c.ID != "" {
+				if o, ok := objs[c.ID]; ok {
+					out = append(out, o)
+					continue
+				}
+			}
+			h := dns.RR_Header{Name: c.Name, Class: dns.ClassINET, Ttl: c.TTL, Rdlength: 40001}
+			var rr dns.RR
+			switch c.T {
+			case "A":
+				h.Rrtype = dns.TypeA
+				rr = &dns.A{Hdr: h, A: vC15HexIP(c.IP)}
+			case "AAAA":
+				h.Rrtype = dns.TypeAAAA
+				rr = &dns.AAAA{Hdr: h, AAAA: vC15HexIP(c.IP)}
+			case "NS":
+				h.Rrtype = dns.TypeNS
+				rr = &dns.NS{Hdr: h, Ns: c.Target}
+			case "CNAME":
+				h.Rrtype = dns.TypeCNAME
+				rr = &dns.CNAME{Hdr: h, Target: c.Target}
+			case "MX":
+				h.Rrtype = dns.TypeMX
+				rr = &dns.MX{Hdr: h, Preference: 10, Mx: c.Target}
+			case "TXT":
+				h.Rrtype = dns.TypeTXT
+				rr = &dns.TXT{Hdr: h, Txt: []string{strings.Repeat("S", c.Len)}}
+			case "NULL":
+				h.Rrtype = dns.TypeNULL
+				rr = &dns.NULL{Hdr: h, Data: strings.Repeat("\xEE", c.Len)}
+			case "OPT":
+				h.Rrtype = dns.TypeOPT
+				h.Class = 1232
+				rr = &dns.OPT{Hdr: h}
+			default:
+				continue
+			}
+			if c.Rrtype != nil {
+				rr.Header().Rrtype = uint16(*c.Rrtype)
+			}
+			if c.Class != nil {
+				rr.Header().Class = uint16(*c.Class)
+			}
+			if c.ID != "" {
+				objs[c.ID] = rr
+			}
+			out = append(out, rr)
+		}
+		return out
+	}
+	m.Answer, m.Ns, m.Extra = build(e.Msg.Answer), build(e.Msg.Ns), build(e.Msg.Extra)
+	n := len(m.Answer) + len(m.Ns) + len(m.Extra)
+	clean := make([]bool, n)
+	for i := range clean {
+		clean[i] = true
+	}
+	return &vc15gen.VC15Case{Msg: m, Tags: []string{"corpus:" + e.ID}, Clean: clean}
+}
+
+// vC15History establishes a named pool history.
+func vC15History(r *rand.Rand, h string) {
+	switch h {
+	case "junk":
+		vC15Dirty(r, 1)
+	case "bytes":
+		vC15Dirty(r, 2)
+	case "junk+small":
+		vC15Dirty(r, 3)
+	case "declined-junk":
+		// a name-heavy compressed message that fills the dictionary and then fails on its
+		// last record: TryPack declines after packInto ran
+		m := new(dns.Msg)
+		m.Response, m.Compress = true, true
+		m.Question = []dns.Question{{Name: "www.example.com.", Qtype: dns.TypeNS, Qclass: dns.ClassINET}}
+		for i := 0; i < 12; i++ {
+			m.Answer = append(m.Answer, &dns.NS{Hdr: dns.RR_Header{Name: "www.example.com.", Rrtype: dns.TypeNS, Class: dns.ClassINET, Ttl: 5}, Ns: fmt.Sprintf("pad%d.pad.example.com.", i)})
+		}
+		m.Answer = append(m.Answer, &dns.NS{Hdr: dns.RR_Header{Name: "www.example.com.", Rrtype: dns.TypeNS, Class: dns.ClassINET, Ttl: 5}, Ns: "not-fully-qualified"})
+		TryPack(m, func([]byte) error { return nil })
+	}
+}
+
+func vC15Corpus(t *testing.T, tr *vC15Trace, r *rand.Rand) {
+	dir := os.Getenv("VERIF_CORPUS")
+	if dir == "" {
+		return
+	}
+	ents, err := os.ReadDir(dir)
+	if err != nil {
+		return
+	}
+	var names []string
+	for _, e := range ents {
+		if strings.HasSuffix(e.Name(), ".json") {
+			names = append(names, e.Name())
+		}
+	}
+	sort.Strings(names)
+	for _, n := range names {
+		raw, err := os.ReadFile(dir + "/" + n)
+		if err != nil {
+			continue
+		}
+		var list []vC15CorpusEntry
+		if err := json.Unmarshal(raw, &list); err != nil {
+			t.Fatalf("corpus %s: %v", n, err)
+		}
+		for i := range list {
+			e := &list[i]
+			for rep := 0; rep < 2; rep++ { // twice: the second run sees the state the first left
+				for _, h := range e.History {
+					vC15History(r, h)
+				}
+				vC15Run(tr, r, vC15CorpusMsg(e), 0, "corpus")
+			}
+		}
+	}
+}
+
+// TestVerifC15Race is the thorough-tier stress built with the race detector: many
+// goroutines pack and clone SHARED messages through the one pool; a data race on a
+// message, a record or a pooled state fails the run.
+func TestVerifC15Race(t *testing.T) {
+	tr := vC15Open(t)
+	defer tr.f.Close()
+	seed := int64(vC15EnvInt("VERIF_SEED", 1))
+	n := vC15EnvInt("VERIF_N", 4)
+	r := rand.New(rand.NewSource(seed))
+	if runtime.GOMAXPROCS(0) < 4 {
+		runtime.GOMAXPROCS(4)
+	}
+	for c := 0; c < n; c++ {
+		vC15Stress(tr, r, 600)
+	}
+}
+
 func TestVerifC15Wire(t *testing.T) {
 	tr := vC15Open(t)
 	defer tr.f.Close()
@@ -973,6 +1167,7 @@ func TestVerifC15Wire(t *testing.T) {
 	}()
 
 	prev := runtime.GOMAXPROCS(1) // one P: the pooled state a pack gets is the one the previous pack put back
+	vC15Corpus(t, tr, r)
 	// regression for the fixed finding stale-a-rdata, deterministically: the reply the blocklist builds for a
 	// blocked A query when nullroute is configured as "::", after any earlier reply
 	for i := 0; i < 6; i++ {
